@@ -23,8 +23,9 @@
   in the paste branch the whole paste - are lost.  `C08_full_statement` (nothing is ever lost) is therefore false:
   `C08_D15_witness`, `C08_D12_witness`.  `C08_exactly_once_partial` carries the complementary hypothesis: the request
   does not raise (every `find_key` of the request ends on a keypress boundary and `get_key` does not raise).
-  NOT PROVED in Lean (stated below as `def ..._statement : Prop`, exercised only by the simulation tie + oracle):
-  C08_no_early, C08_timeout, the osbuf case of C08_prompt, and the whole-run (multi-request) corollary.
+  `C08_no_early` (never before its time; time order; ties in trigger order - via sortedness and stability of the
+  model's sort), `C08_timeout`, `C08_prompt` (all six kinds of "deliverable") and the multi-request corollary
+  `C08_exactly_once_history` are proved at the end of the file.
 -/
 import Curtsies.Model.Input
 namespace Curtsies
@@ -611,25 +612,6 @@ theorem C08_prompt_buffered (P : Params) (gk : List Nat → Bool → Except PyEr
     | some k => exact ⟨by simp, rfl, rfl⟩
     | none => exact absurd (hn rfl).1 h
 
-/-! ### statements NOT proved in Lean (kept visible; checked by the simulation tie and the oracle only) -/
-
-/-- a scheduled event is never returned before its time -/
-def C08_no_early_statement : Prop :=
-  ∀ (β κ : Type) (P : Params) (gk : List Nat → Bool → Except PyErr (Option κ)) (val : β → Nat) (wf : Nat)
-    (st : InSt β) (ag : Agenda β) (timeout : Option Time) (t : Time) (e : Ev),
-    (send P gk val wf st ag timeout).1 = .ok (some (.scheduled t e)) →
-      t < (send P gk val wf st ag timeout).2.1.clock ∧
-      ∀ x ∈ (send P gk val wf st ag timeout).2.1.scheduled, t ≤ x.1
-
-/-- with nothing scheduled and no spurious readiness, `None` comes back no earlier than the timeout -/
-def C08_timeout_statement : Prop :=
-  ∀ (β κ : Type) (P : Params) (gk : List Nat → Bool → Except PyErr (Option κ)) (val : β → Nat) (wf : Nat)
-    (st : InSt β) (ag : Agenda β) (timeout : Option Time),
-    st.scheduled = [] → st.spurious = false →
-    (∀ x ∈ ag, (match x.2 with | .schedule _ _ => False | .spurious => False | _ => True)) →
-    (send P gk val wf st ag timeout).1 = .ok none →
-      ∃ T, timeout = some T ∧ st.clock + T ≤ (send P gk val wf st ag timeout).2.1.clock
-
 /-! ### known findings: witnesses on the model -/
 
 /-- a miniature `get_key` for utf-8: ASCII bytes are keys; e2 starts a 3-byte character; a lone byte >= 0x80 is a Meta
@@ -666,5 +648,855 @@ theorem C08_D12_witness :
 example : (match (send toyParams toyKey id 10 ({} : InSt Nat) [(0, .arrive [0xe2, 0x82, 0xac])] none).1 with
     | .ok (some (.key k bs)) => k == [0xe2, 0x82, 0xac] && bs == [0xe2, 0x82, 0xac] | _ => false) = true := by
   decide
+
+
+/-! ## time, order and promptness -/
+
+/-! ### stable sort facts for `sortSched` -/
+def SortedW : List (Time × Ev) → Prop
+  | [] => True
+  | x :: xs => (∀ y ∈ xs, x.1 ≤ y.1) ∧ SortedW xs
+
+theorem mem_insertSched (x y : Time × Ev) (l : List (Time × Ev)) : y ∈ insertSched x l ↔ y = x ∨ y ∈ l := by
+  constructor
+  · intro h; have := (insertSched_perm x l).mem_iff.mp h; simpa using this
+  · intro h; exact (insertSched_perm x l).mem_iff.mpr (by simpa using h)
+
+theorem insertSched_sorted (x : Time × Ev) (l : List (Time × Ev)) (h : SortedW l) : SortedW (insertSched x l) := by
+  induction l with
+  | nil => exact ⟨by simp, trivial⟩
+  | cons y ys ih =>
+    unfold insertSched
+    split
+    · rename_i hle
+      refine ⟨?_, h⟩
+      intro z hz
+      rcases List.mem_cons.mp hz with hz | hz
+      · subst hz; exact hle
+      · exact Nat.le_trans hle (h.1 z hz)
+    · rename_i hle
+      refine ⟨?_, ih h.2⟩
+      intro z hz
+      rcases (mem_insertSched x z ys).mp hz with hz | hz
+      · subst hz; exact Nat.le_of_lt (Nat.lt_of_not_le hle)
+      · exact h.1 z hz
+
+theorem sortSched_sorted (l : List (Time × Ev)) : SortedW (sortSched l) := by
+  induction l with
+  | nil => trivial
+  | cons x xs ih => exact insertSched_sorted x _ ih
+
+/-- stability: events with the same time keep their list (= trigger) order -/
+theorem insertSched_stable (t : Time) (x : Time × Ev) (l : List (Time × Ev)) (h : SortedW l) :
+    (insertSched x l).filter (fun p => p.1 == t) = (x :: l).filter (fun p => p.1 == t) := by
+  induction l with
+  | nil => rfl
+  | cons y ys ih =>
+    unfold insertSched
+    split
+    · rfl
+    · rename_i hle
+      have hlt : y.1 < x.1 := Nat.lt_of_not_le hle
+      rw [List.filter_cons, ih h.2]
+      by_cases hx : x.1 = t
+      · have hy : ¬ y.1 = t := by intro e; rw [e, hx] at hlt; exact Nat.lt_irrefl _ hlt
+        simp [List.filter_cons, hx, hy]
+      · simp [List.filter_cons, hx]
+
+theorem sortSched_stable (t : Time) (l : List (Time × Ev)) :
+    (sortSched l).filter (fun p => p.1 == t) = l.filter (fun p => p.1 == t) := by
+  induction l with
+  | nil => rfl
+  | cons x xs ih =>
+    show (insertSched x (sortSched xs)).filter _ = _
+    rw [insertSched_stable t x _ (sortSched_sorted xs)]
+    simp [List.filter_cons, ih]
+
+/-! ### what `select` and the wait loop guarantee about time and readiness -/
+def isSpur : EnvAct β → Bool | .spurious => true | _ => false
+def isSched : EnvAct β → Bool | .schedule _ _ => true | _ => false
+
+theorem firstReady_some (P : Params) (st : InSt β) (r : Sel) (h : firstReady P st = some r) :
+    match r with
+    | .timeout => False
+    | .blocked => False
+    | .stdin => st.osbuf ≠ [] ∨ st.spurious = true
+    | _ => True := by
+  unfold firstReady at h
+  split at h
+  · rename_i hc
+    cases h
+    simp only [Bool.or_eq_true, Bool.not_eq_true', List.isEmpty_eq_false_iff] at hc
+    exact hc
+  · split at h
+    · cases h; trivial
+    · cases hp : firstPipe st.pipes 0 <;> simp [hp] at h
+      cases h; trivial
+
+theorem select_kind (P : Params) (dl : Option Time) (st : InSt β) (ag : Agenda β) :
+    match (select P dl st ag).1 with
+    | .timeout => ∃ d, dl = some d ∧ d ≤ (select P dl st ag).2.1.clock
+    | .stdin => (select P dl st ag).2.1.osbuf ≠ [] ∨ (select P dl st ag).2.1.spurious = true
+    | _ => True := by
+  fun_induction select P dl st ag with
+  | case1 st ag r h =>
+    have := firstReady_some P st r h
+    cases r <;> simp_all
+  | case2 st h hd => trivial
+  | case3 st h d hd => exact ⟨d, hd, Nat.le_max_right _ _⟩
+  | case4 st h t a rest hd ih => subst hd; exact ih
+  | case5 st h t a rest d hd hle ih => subst hd; exact ih
+  | case6 st h t a rest d hd hle => exact ⟨d, hd, Nat.le_max_right _ _⟩
+
+theorem applyEnv_spur (P : Params) (a : EnvAct β) (st : InSt β) (h : isSpur a = false) :
+    (applyEnv P a st).spurious = st.spurious := by
+  cases a <;> simp [applyEnv, isSpur] at h ⊢ <;> split <;> rfl
+
+theorem select_quiet (P : Params) (dl : Option Time) (st : InSt β) (ag : Agenda β)
+    (hq : ∀ x ∈ ag, isSpur x.2 = false) (hs : st.spurious = false) :
+    (select P dl st ag).2.1.spurious = false := by
+  fun_induction select P dl st ag with
+  | case1 st ag r h => exact hs
+  | case2 st h hd => exact hs
+  | case3 st h d hd => exact hs
+  | case4 st h t a rest hd ih =>
+    subst hd
+    exact ih (fun x hx => hq x (List.mem_cons_of_mem _ hx))
+      (by rw [applyEnv_spur P a _ (hq (t, a) List.mem_cons_self)]; exact hs)
+  | case5 st h t a rest d hd hle ih =>
+    subst hd
+    exact ih (fun x hx => hq x (List.mem_cons_of_mem _ hx))
+      (by rw [applyEnv_spur P a _ (hq (t, a) List.mem_cons_self)]; exact hs)
+  | case6 st h t a rest d hd hle => exact hs
+
+/-- `remaining_timeout` always reaches at least the original deadline `t0 + timeout` -/
+def RemInv (timeout : Option Time) (t0 : Time) (remaining : Option Time) (clock : Time) : Prop :=
+  match timeout with
+  | none => remaining = none
+  | some T => ∃ r, remaining = some r ∧ t0 + T ≤ clock + r
+
+theorem RemInv.recompute (timeout : Option Time) (t0 clock : Time) :
+    RemInv timeout t0 (recompute timeout t0 clock) clock := by
+  cases timeout with
+  | none => rfl
+  | some T => exact ⟨t0 + T - clock, rfl, (by omega : ∀ a b : Nat, a ≤ b + (a - b)) _ _⟩
+
+theorem RemInv.mono {timeout : Option Time} {t0 : Time} {remaining : Option Time} {c c' : Time}
+    (h : RemInv timeout t0 remaining c) (hc : c ≤ c') : RemInv timeout t0 remaining c' := by
+  cases timeout with
+  | none => exact h
+  | some T =>
+    obtain ⟨r, h1, h2⟩ := h
+    exact ⟨r, h1, (by omega : ∀ a c c' r : Nat, a ≤ c + r → c ≤ c' → a ≤ c' + r) _ _ _ _ h2 hc⟩
+
+/-- the wait returned `(ready, None)`: nothing was taken out, everything that fired is in its queue; not ready means
+    the original deadline has passed; ready means there is something to read (or a spurious readiness) -/
+theorem waitLoop_none (P : Params) (timeout : Option Time) (t0 : Time) (f : Nat) (remaining : Option Time)
+    (st : InSt β) (ag : Agenda β) :
+    RemInv timeout t0 remaining st.clock →
+    ∀ ready, (waitLoop (κ := κ) P timeout t0 f remaining st ag).1 = .ok (ready, none) →
+      (∃ fired, ag = fired ++ (waitLoop (κ := κ) P timeout t0 f remaining st ag).2.2 ∧
+        Grew P st fired (waitLoop (κ := κ) P timeout t0 f remaining st ag).2.1) ∧
+      (ready = false → ∃ T, timeout = some T ∧ t0 + T ≤ (waitLoop (κ := κ) P timeout t0 f remaining st ag).2.1.clock) ∧
+      (ready = true → (waitLoop (κ := κ) P timeout t0 f remaining st ag).2.1.osbuf ≠ [] ∨
+        (waitLoop (κ := κ) P timeout t0 f remaining st ag).2.1.spurious = true) := by
+  fun_induction waitLoop (κ := κ) P timeout t0 f remaining st ag with
+  | case1 x st ag => intro _ ready h; simp at h
+  | case2 f remaining st ag st1 ag1 hs => intro _ ready h; simp at h
+  | case3 f remaining st ag st1 ag1 hs =>
+    intro hinv ready h
+    have hg := select_grew P (Option.map (fun x => st.clock + x) remaining) st ag
+    have hk := select_kind P (Option.map (fun x => st.clock + x) remaining) st ag
+    rw [hs] at hg hk
+    obtain ⟨fi, h1, h2⟩ := hg
+    obtain ⟨d, hd, hle⟩ := hk
+    simp only [Except.ok.injEq, Prod.mk.injEq] at h
+    refine ⟨⟨fi, h1, h2⟩, fun _ => ?_, fun hr => by simp [← h.1] at hr⟩
+    cases timeout with
+    | none =>
+      have : remaining = none := hinv
+      subst this; simp at hd
+    | some T =>
+      obtain ⟨r, hr1, hr2⟩ := hinv
+      subst hr1
+      simp only [Option.map_some, Option.some.injEq] at hd
+      exact ⟨T, rfl, Nat.le_trans hr2 (hd ▸ hle)⟩
+  | case4 f remaining st ag st1 ag1 hs =>
+    intro hinv ready h
+    have hg := select_grew P (Option.map (fun x => st.clock + x) remaining) st ag
+    have hk := select_kind P (Option.map (fun x => st.clock + x) remaining) st ag
+    rw [hs] at hg hk
+    obtain ⟨fi, h1, h2⟩ := hg
+    simp only [Except.ok.injEq, Prod.mk.injEq] at h
+    exact ⟨⟨fi, h1, h2⟩, fun hr => by simp [← h.1] at hr, fun _ => hk⟩
+  | case5 f remaining st ag n rest st1 ag1 hs st2 hn hg => intro _ ready h; simp at h
+  | case6 f remaining st ag n rest st1 ag1 hs st2 hn hg ih =>
+    intro hinv ready h
+    have hgr := select_grew P (Option.map (fun x => st.clock + x) remaining) st ag
+    rw [hs] at hgr
+    obtain ⟨fi, h1, h2⟩ := hgr
+    have h2' : Grew P st fi st2 := ⟨h2.q, h2.i, h2.s, h2.g, h2.b, h2.c⟩
+    obtain ⟨⟨f2, h3, h4⟩, h5, h6⟩ := ih (RemInv.recompute timeout t0 st2.clock) ready h
+    exact ⟨⟨fi ++ f2, by rw [h1, List.append_assoc, ← h3], h2'.trans h4⟩, h5, h6⟩
+  | case7 f remaining st ag n rest st1 ag1 hs st2 hn ih =>
+    intro hinv ready h
+    have hgr := select_grew P (Option.map (fun x => st.clock + x) remaining) st ag
+    rw [hs] at hgr
+    obtain ⟨fi, h1, h2⟩ := hgr
+    have h2' : Grew P st fi st2 := ⟨h2.q, h2.i, h2.s, h2.g, h2.b, h2.c⟩
+    obtain ⟨⟨f2, h3, h4⟩, h5, h6⟩ := ih (hinv.mono h2'.c) ready h
+    exact ⟨⟨fi ++ f2, by rw [h1, List.append_assoc, ← h3], h2'.trans h4⟩, h5, h6⟩
+  | case8 f remaining st ag i st1 ag1 hs st2 e q he => intro _ ready h; simp at h
+  | case9 f remaining st ag i st1 ag1 hs st2 he ih =>
+    intro hinv ready h
+    have hgr := select_grew P (Option.map (fun x => st.clock + x) remaining) st ag
+    rw [hs] at hgr
+    obtain ⟨fi, h1, h2⟩ := hgr
+    have h2' : Grew P st fi st2 := ⟨h2.q, h2.i, h2.s, h2.g, h2.b, h2.c⟩
+    obtain ⟨⟨f2, h3, h4⟩, h5, h6⟩ := ih (RemInv.recompute timeout t0 st2.clock) ready h
+    exact ⟨⟨fi ++ f2, by rw [h1, List.append_assoc, ← h3], h2'.trans h4⟩, h5, h6⟩
+
+/-- the wait itself only ever hands back a SIGINT event or an interrupting event -/
+theorem waitLoop_ev (P : Params) (timeout : Option Time) (t0 : Time) (f : Nat) (remaining : Option Time)
+    (st : InSt β) (ag : Agenda β) (b : Bool) (ev : Out κ β)
+    (h : (waitLoop (κ := κ) P timeout t0 f remaining st ag).1 = .ok (b, some ev)) :
+    ev = .sigint ∨ ∃ e, ev = .interrupting e := by
+  fun_induction waitLoop (κ := κ) P timeout t0 f remaining st ag with
+  | case1 x st ag => simp at h
+  | case2 f remaining st ag st1 ag1 hs => simp at h
+  | case3 f remaining st ag st1 ag1 hs => simp at h
+  | case4 f remaining st ag st1 ag1 hs => simp at h
+  | case5 f remaining st ag n rest st1 ag1 hs st2 hn hg => simp at h; exact Or.inl h.2.symm
+  | case6 f remaining st ag n rest st1 ag1 hs st2 hn hg ih => exact ih h
+  | case7 f remaining st ag n rest st1 ag1 hs st2 hn ih => exact ih h
+  | case8 f remaining st ag i st1 ag1 hs st2 e q he => simp at h; exact Or.inr ⟨e, h.2.symm⟩
+  | case9 f remaining st ag i st1 ag1 hs st2 he ih => exact ih h
+
+theorem waitLoop_quiet (P : Params) (timeout : Option Time) (t0 : Time) (f : Nat) (remaining : Option Time)
+    (st : InSt β) (ag : Agenda β) :
+    (∀ x ∈ ag, isSpur x.2 = false) → st.spurious = false →
+    (waitLoop (κ := κ) P timeout t0 f remaining st ag).2.1.spurious = false := by
+  fun_induction waitLoop (κ := κ) P timeout t0 f remaining st ag with
+  | case1 x st ag => intro _ hs; exact hs
+  | case2 f remaining st ag st1 ag1 hs =>
+    intro hq h0; have := select_quiet P (Option.map (fun x => st.clock + x) remaining) st ag hq h0
+    rw [hs] at this; exact this
+  | case3 f remaining st ag st1 ag1 hs =>
+    intro hq h0; have := select_quiet P (Option.map (fun x => st.clock + x) remaining) st ag hq h0
+    rw [hs] at this; exact this
+  | case4 f remaining st ag st1 ag1 hs =>
+    intro hq h0; have := select_quiet P (Option.map (fun x => st.clock + x) remaining) st ag hq h0
+    rw [hs] at this; exact this
+  | case5 f remaining st ag n rest st1 ag1 hs st2 hn hg =>
+    intro hq h0; have := select_quiet P (Option.map (fun x => st.clock + x) remaining) st ag hq h0
+    rw [hs] at this; exact this
+  | case6 f remaining st ag n rest st1 ag1 hs st2 hn hg ih =>
+    intro hq h0
+    have := select_quiet P (Option.map (fun x => st.clock + x) remaining) st ag hq h0
+    have hgr := select_grew P (Option.map (fun x => st.clock + x) remaining) st ag
+    rw [hs] at this hgr
+    obtain ⟨fi, h1, _⟩ := hgr
+    exact ih (fun x hx => hq x (by rw [h1]; exact List.mem_append_right _ hx)) this
+  | case7 f remaining st ag n rest st1 ag1 hs st2 hn ih =>
+    intro hq h0
+    have := select_quiet P (Option.map (fun x => st.clock + x) remaining) st ag hq h0
+    have hgr := select_grew P (Option.map (fun x => st.clock + x) remaining) st ag
+    rw [hs] at this hgr
+    obtain ⟨fi, h1, _⟩ := hgr
+    exact ih (fun x hx => hq x (by rw [h1]; exact List.mem_append_right _ hx)) this
+  | case8 f remaining st ag i st1 ag1 hs st2 e q he =>
+    intro hq h0; have := select_quiet P (Option.map (fun x => st.clock + x) remaining) st ag hq h0
+    rw [hs] at this; exact this
+  | case9 f remaining st ag i st1 ag1 hs st2 he ih =>
+    intro hq h0
+    have := select_quiet P (Option.map (fun x => st.clock + x) remaining) st ag hq h0
+    have hgr := select_grew P (Option.map (fun x => st.clock + x) remaining) st ag
+    rw [hs] at this hgr
+    obtain ⟨fi, h1, _⟩ := hgr
+    exact ih (fun x hx => hq x (by rw [h1]; exact List.mem_append_right _ hx)) this
+
+/-! ### the part of `_send` after the wait -/
+theorem sendRead_facts (P : Params) (gk : List Nat → Bool → Except PyErr (Option κ)) (val : β → Nat)
+    (st : InSt β) (ag : Agenda β) :
+    SameEvents st (sendRead P gk val st ag).2.1 ∧ (sendRead P gk val st ag).2.2 = ag ∧
+    (∀ o, (sendRead P gk val st ag).1 = .ok o →
+      (o = none ∧ (nonblockingRead P st).1 = 0) ∨ (∃ k bs, o = some (.key k bs)) ∨ ∃ ks, o = some (.paste ks)) := by
+  unfold sendRead
+  simp only []
+  have hr : SameEvents st (nonblockingRead P st).2 := by simp [SameEvents, nonblockingRead]
+  generalize (nonblockingRead P st) = nr at hr
+  obtain ⟨n, st1⟩ := nr
+  simp only [] at hr ⊢
+  split
+  · rename_i hn
+    exact ⟨hr, rfl, fun o h => Or.inl ⟨by simpa using h.symm, by simpa using hn⟩⟩
+  · split
+    · have := pasteLoop_ledger P gk val (pasteFuel st1) [] st1
+      generalize pasteLoop P gk val (pasteFuel st1) [] st1 = pr at this
+      obtain ⟨res, st2⟩ := pr
+      obtain ⟨he2, lost, hl, ho⟩ := this
+      simp only [] at he2 ho ⊢
+      obtain ⟨a1, a2, a3, a4, a5⟩ := hr; obtain ⟨b1, b2, b3, b4, b5⟩ := he2
+      exact ⟨⟨b1.trans a1, b2.trans a2, b3.trans a3, b4.trans a4, b5.trans a5⟩, by first | rfl | trivial,
+        fun o h => Or.inr (Or.inr (ho o h).2)⟩
+    · generalize findKey gk val st1.unprocessed [] = r
+      obtain ⟨res, used, rest⟩ := r
+      have he : SameEvents st { st1 with unprocessed := rest } := hr
+      cases res with
+      | error e => exact ⟨he, rfl, by simp⟩
+      | ok o =>
+        cases o with
+        | none => exact ⟨he, rfl, by simp⟩
+        | some k => exact ⟨he, rfl, fun o h => Or.inr (Or.inl ⟨k, used, by simpa using h.symm⟩)⟩
+
+theorem afterWait_facts (P : Params) (gk : List Nat → Bool → Except PyErr (Option κ)) (val : β → Nat) (ready : Bool)
+    (st : InSt β) (ag : Agenda β) :
+    (afterWait P gk val ready st ag).2.1.clock = st.clock ∧ (afterWait P gk val ready st ag).2.2 = ag ∧
+    (∀ o, (afterWait P gk val ready st ag).1 = .ok o →
+      (∃ t e, o = some (.scheduled t e) ∧ t < st.clock ∧
+          sortSched st.scheduled = (t, e) :: (afterWait P gk val ready st ag).2.1.scheduled) ∨
+      (o = none ∧ (ready = false ∨ (nonblockingRead P st).1 = 0)) ∨
+      (∃ k bs, o = some (.key k bs)) ∨ ∃ ks, o = some (.paste ks)) := by
+  unfold afterWait
+  generalize hso : sortSched st.scheduled = so
+  cases so with
+  | nil =>
+    simp only []
+    split
+    · rename_i hr
+      exact ⟨rfl, rfl, fun o h => Or.inr (Or.inl ⟨by simpa using h.symm, Or.inl (by simpa using hr)⟩)⟩
+    · obtain ⟨he, ha, ho⟩ := sendRead_facts P gk val st ag
+      refine ⟨he.2.2.2.2, ha, fun o h => ?_⟩
+      rcases ho o h with h1 | h1 | h1
+      · exact Or.inr (Or.inl ⟨h1.1, Or.inr h1.2⟩)
+      · exact Or.inr (Or.inr (Or.inl h1))
+      · exact Or.inr (Or.inr (Or.inr h1))
+  | cons hd srest =>
+    obtain ⟨w0, e0⟩ := hd
+    simp only []
+    split
+    · rename_i hdue
+      exact ⟨rfl, rfl, fun o h => Or.inl ⟨w0, e0, by simpa using h.symm, hdue, rfl⟩⟩
+    · split
+      · rename_i hr
+        exact ⟨rfl, rfl, fun o h => Or.inr (Or.inl ⟨by simpa using h.symm, Or.inl (by simpa using hr)⟩)⟩
+      · obtain ⟨he, ha, ho⟩ := sendRead_facts P gk val { st with scheduled := (w0, e0) :: srest } ag
+        refine ⟨he.2.2.2.2, ha, fun o h => ?_⟩
+        rcases ho o h with h1 | h1 | h1
+        · exact Or.inr (Or.inl ⟨h1.1, Or.inr h1.2⟩)
+        · exact Or.inr (Or.inr (Or.inl h1))
+        · exact Or.inr (Or.inr (Or.inr h1))
+
+theorem RemInv.init (tuc : Option Time) (c : Time) : RemInv tuc c tuc c := by
+  cases tuc with
+  | none => rfl
+  | some T => exact ⟨T, rfl, Nat.le_refl _⟩
+
+/-- everything `sendRest` can do, in terms of the wait's result -/
+theorem sendRest_cases (P : Params) (gk : List Nat → Bool → Except PyErr (Option κ)) (val : β → Nat) (wf : Nat)
+    (tuc : Option Time) (st : InSt β) (ag : Agenda β) (o : Option (Out κ β))
+    (h : (sendRest P gk val wf tuc st ag).1 = .ok o) :
+    (∃ k bs, o = some (.key k bs)) ∨
+    (st.unprocessed = [] ∧
+      ((∃ ev, o = some ev ∧ (ev = .sigint ∨ ∃ e, ev = .interrupting e)) ∨
+       ∃ ready st1 ag1 fired, ag = fired ++ ag1 ∧ Grew P st fired st1 ∧
+        (st.spurious = false → (∀ x ∈ ag, isSpur x.2 = false) → st1.spurious = false) ∧
+        (ready = false → ∃ T, tuc = some T ∧ st.clock + T ≤ st1.clock) ∧
+        (ready = true → st1.osbuf ≠ [] ∨ st1.spurious = true) ∧
+        sendRest P gk val wf tuc st ag = afterWait P gk val ready st1 ag1)) := by
+  unfold sendRest at h ⊢
+  have hn := findKey_none gk val st.unprocessed []
+  have hsp := findKey_split gk val st.unprocessed []
+  generalize findKey gk val st.unprocessed [] = r at hn hsp h ⊢
+  obtain ⟨res, used, rest⟩ := r
+  cases res with
+  | error e => simp at h
+  | ok ko =>
+    cases ko with
+    | some k =>
+      simp only [] at h ⊢
+      exact Or.inl ⟨k, used, by simpa using h.symm⟩
+    | none =>
+      have hu := (hn rfl).1
+      simp only [List.nil_append] at hsp
+      have hrest : rest = [] := by rw [hu] at hsp; exact (List.append_eq_nil_iff.mp hsp).2
+      subst hrest
+      have est : ({ st with unprocessed := [] } : InSt β) = st := by cases st; simp_all
+      simp only [] at h ⊢
+      rw [est] at h ⊢
+      refine Or.inr ⟨hu, ?_⟩
+      have hnone := waitLoop_none (κ := κ) P tuc st.clock wf tuc st ag (RemInv.init tuc st.clock)
+      have hev := waitLoop_ev (κ := κ) P tuc st.clock wf tuc st ag
+      have hq := waitLoop_quiet (κ := κ) P tuc st.clock wf tuc st ag
+      generalize waitLoop (κ := κ) P tuc st.clock wf tuc st ag = wr at hnone hev hq h ⊢
+      obtain ⟨wres, st1, ag1⟩ := wr
+      cases wres with
+      | error fl => simp at h
+      | ok pr =>
+        obtain ⟨ready, ev⟩ := pr
+        cases ev with
+        | some ev =>
+          simp only [] at h ⊢
+          exact Or.inl ⟨ev, by simpa using h.symm, hev ready ev rfl⟩
+        | none =>
+          simp only [] at h ⊢
+          obtain ⟨⟨fired, hf, hg⟩, hto, hrd⟩ := hnone ready rfl
+          exact Or.inr ⟨ready, st1, ag1, fired, hf, hg, fun h0 hqq => hq hqq h0, hto, hrd, rfl⟩
+
+theorem envS_nil (f : Agenda β) (h : ∀ x ∈ f, isSched x.2 = false) : envS f = [] := by
+  unfold envS
+  rw [List.flatMap_eq_nil_iff]
+  intro x hx
+  have := h x hx
+  cases hx2 : x.2 <;> simp_all [sOf, isSched]
+
+theorem sortSched_nil_iff (l : List (Time × Ev)) : sortSched l = [] ↔ l = [] := by
+  constructor
+  · intro h; have := sortSched_perm l; rw [h] at this; exact this.symm.eq_nil
+  · intro h; subst h; rfl
+
+/-- `send` when no SIGINT event, queued event or interrupting event is pending -/
+theorem send_idle (P : Params) (gk : List Nat → Bool → Except PyErr (Option κ)) (val : β → Nat) (wf : Nat)
+    (st : InSt β) (ag : Agenda β) (timeout : Option Time)
+    (hg : ¬ st.sigints > 0) (hq : st.queued = []) (hi : st.interrupting = []) :
+    send P gk val wf st ag timeout =
+      match sortSched st.scheduled with
+      | (w, e) :: srest =>
+        if w < st.clock then (.ok (some (.scheduled w e)), { st with scheduled := srest }, ag)
+        else sendRest P gk val wf (some (match timeout with | none => w - st.clock | some T => min (w - st.clock) T))
+          { st with scheduled := (w, e) :: srest } ag
+      | [] => sendRest P gk val wf timeout st ag := by
+  unfold send
+  rw [if_neg hg]
+  simp only [hq, hi]
+  generalize sortSched st.scheduled = so
+  cases so with
+  | nil => rfl
+  | cons hd tl => obtain ⟨w, e⟩ := hd; rfl
+
+/-- `send` when one of them is pending: it is returned at once -/
+theorem send_busy (P : Params) (gk : List Nat → Bool → Except PyErr (Option κ)) (val : β → Nat) (wf : Nat)
+    (st : InSt β) (ag : Agenda β) (timeout : Option Time)
+    (h : st.sigints > 0 ∨ st.queued ≠ [] ∨ st.interrupting ≠ []) :
+    ∃ ev, (send P gk val wf st ag timeout).1 = .ok (some ev) ∧
+      (ev = .sigint ∨ (∃ e, ev = .queued e) ∨ ∃ e, ev = .interrupting e) := by
+  unfold send
+  split
+  · exact ⟨_, rfl, Or.inl rfl⟩
+  · split
+    · exact ⟨_, rfl, Or.inr (Or.inl ⟨_, rfl⟩)⟩
+    · split
+      · exact ⟨_, rfl, Or.inr (Or.inr ⟨_, rfl⟩)⟩
+      · rcases h with h | h | h <;> simp_all
+
+/-- NO EARLY: a scheduled event comes back only after its time has passed (`when < clock`), it is the first of the
+    pending scheduled events in time order (every event still pending has a time >= its own), and among pending events
+    with the same time it is the first in list order - which is trigger order, because callbacks append and the sort
+    is stable.  `pending` is the list the request sorted: the queue as it was (first check), or the sorted queue plus
+    what was scheduled while the request waited (second check). -/
+theorem C08_no_early (P : Params) (gk : List Nat → Bool → Except PyErr (Option κ)) (val : β → Nat) (wf : Nat)
+    (st : InSt β) (ag : Agenda β) (timeout : Option Time) (t : Time) (e : Ev)
+    (h : (send P gk val wf st ag timeout).1 = .ok (some (.scheduled t e))) :
+    t < (send P gk val wf st ag timeout).2.1.clock ∧
+    ∃ pending, (pending = st.scheduled ∨
+        ∃ fired, ag = fired ++ (send P gk val wf st ag timeout).2.2 ∧ pending = sortSched st.scheduled ++ envS fired) ∧
+      sortSched pending = (t, e) :: (send P gk val wf st ag timeout).2.1.scheduled ∧
+      (∀ x ∈ (send P gk val wf st ag timeout).2.1.scheduled, t ≤ x.1) ∧
+      pending.filter (fun p => p.1 == t) =
+        (t, e) :: (send P gk val wf st ag timeout).2.1.scheduled.filter (fun p => p.1 == t) := by
+  have fin : ∀ (pending : List (Time × Ev)) (rest : List (Time × Ev)), sortSched pending = (t, e) :: rest →
+      (∀ x ∈ rest, t ≤ x.1) ∧ pending.filter (fun p => p.1 == t) = (t, e) :: rest.filter (fun p => p.1 == t) := by
+    intro pending rest hs
+    have h1 := sortSched_sorted pending
+    have h2 := sortSched_stable t pending
+    rw [hs] at h1 h2
+    exact ⟨h1.1, by rw [← h2]; simp [List.filter_cons]⟩
+  have viaRest : ∀ (tuc : Option Time) (st0 : InSt β), st0.scheduled = sortSched st.scheduled → st0.clock = st.clock →
+      (sendRest P gk val wf tuc st0 ag).1 = .ok (some (.scheduled t e)) →
+      t < (sendRest P gk val wf tuc st0 ag).2.1.clock ∧
+      ∃ pending, (pending = st.scheduled ∨
+          ∃ fired, ag = fired ++ (sendRest P gk val wf tuc st0 ag).2.2 ∧ pending = sortSched st.scheduled ++ envS fired) ∧
+        sortSched pending = (t, e) :: (sendRest P gk val wf tuc st0 ag).2.1.scheduled ∧
+        (∀ x ∈ (sendRest P gk val wf tuc st0 ag).2.1.scheduled, t ≤ x.1) ∧
+        pending.filter (fun p => p.1 == t) =
+          (t, e) :: (sendRest P gk val wf tuc st0 ag).2.1.scheduled.filter (fun p => p.1 == t) := by
+    intro tuc st0 hs0 hc0 hr
+    rcases sendRest_cases P gk val wf tuc st0 ag _ hr with ⟨k, bs, hk⟩ | ⟨_, ⟨ev, hev, hev2⟩ | ⟨ready, st1, ag1, fired, hf, hg, _, _, _, heq⟩⟩
+    · simp at hk
+    · rcases hev2 with h1 | ⟨e', h1⟩ <;> subst h1 <;> simp at hev
+    · rw [heq] at hr ⊢
+      obtain ⟨hclk, hag, ho⟩ := afterWait_facts P gk val ready st1 ag1
+      rcases ho _ hr with ⟨t', e', h1, h2, h3⟩ | ⟨h1, _⟩ | ⟨k, bs, h1⟩ | ⟨ks, h1⟩
+      · simp only [Option.some.injEq, Out.scheduled.injEq] at h1
+        obtain ⟨rfl, rfl⟩ := h1
+        refine ⟨by rw [hclk]; exact h2, st1.scheduled, Or.inr ⟨fired, by rw [hag]; exact hf, by rw [hg.s, hs0]⟩, h3, ?_⟩
+        exact fin _ _ h3
+      · simp at h1
+      · simp at h1
+      · simp at h1
+  by_cases hbusy : st.sigints > 0 ∨ st.queued ≠ [] ∨ st.interrupting ≠ []
+  · obtain ⟨ev, h1, h2⟩ := send_busy P gk val wf st ag timeout hbusy
+    rw [h1] at h
+    rcases h2 with h2 | ⟨e', h2⟩ | ⟨e', h2⟩ <;> subst h2 <;> simp at h
+  · have hg : ¬ st.sigints > 0 := fun x => hbusy (Or.inl x)
+    have hq : st.queued = [] := Classical.byContradiction fun x => hbusy (Or.inr (Or.inl x))
+    have hi : st.interrupting = [] := Classical.byContradiction fun x => hbusy (Or.inr (Or.inr x))
+    rw [send_idle P gk val wf st ag timeout hg hq hi] at h ⊢
+    generalize hso : sortSched st.scheduled = so at h ⊢
+    cases so with
+    | nil =>
+      simp only [] at h ⊢
+      have hsn := (sortSched_nil_iff st.scheduled).mp hso
+      have := viaRest timeout st (by rw [hso, hsn]) rfl h
+      rw [hso] at this
+      exact this
+    | cons hd srest =>
+      obtain ⟨w, e0⟩ := hd
+      simp only [] at h ⊢
+      by_cases hdue : w < st.clock
+      · simp only [hdue, if_true] at h ⊢
+        simp only [Except.ok.injEq, Option.some.injEq, Out.scheduled.injEq] at h
+        obtain ⟨rfl, rfl⟩ := h
+        exact ⟨hdue, st.scheduled, Or.inl rfl, hso, fin _ _ hso⟩
+      · simp only [hdue, if_false] at h ⊢
+        have := viaRest _ { st with scheduled := (w, e0) :: srest } hso.symm rfl h
+        rw [hso] at this
+        exact this
+
+theorem take_length_zero {α : Type} (l : List α) (n : Nat) (hn : n > 0) (h : (l.take n).length = 0) : l = [] := by
+  cases l with
+  | nil => rfl
+  | cons x xs => cases n with
+    | zero => omega
+    | succ k => simp at h
+
+/-- TIMEOUT: with no scheduled event pending and no spurious readiness, a request that returns `None` was given a
+    timeout and returns no earlier than `start + timeout` (whatever else happens meanwhile: event-less wake-ups,
+    signals, callbacks). -/
+theorem C08_timeout (P : Params) (gk : List Nat → Bool → Except PyErr (Option κ)) (val : β → Nat) (wf : Nat)
+    (st : InSt β) (ag : Agenda β) (timeout : Option Time)
+    (hs : st.scheduled = []) (hz : st.spurious = false) (hq : ∀ x ∈ ag, isSpur x.2 = false) (hr : P.readSize > 0)
+    (h : (send P gk val wf st ag timeout).1 = .ok none) :
+    ∃ T, timeout = some T ∧ st.clock + T ≤ (send P gk val wf st ag timeout).2.1.clock := by
+  by_cases hbusy : st.sigints > 0 ∨ st.queued ≠ [] ∨ st.interrupting ≠ []
+  · obtain ⟨ev, h1, _⟩ := send_busy P gk val wf st ag timeout hbusy
+    rw [h1] at h; simp at h
+  · have hg : ¬ st.sigints > 0 := fun x => hbusy (Or.inl x)
+    have hq0 : st.queued = [] := Classical.byContradiction fun x => hbusy (Or.inr (Or.inl x))
+    have hi : st.interrupting = [] := Classical.byContradiction fun x => hbusy (Or.inr (Or.inr x))
+    rw [send_idle P gk val wf st ag timeout hg hq0 hi] at h ⊢
+    have hso : sortSched st.scheduled = [] := by rw [hs]; rfl
+    rw [hso] at h ⊢
+    simp only [] at h ⊢
+    rcases sendRest_cases P gk val wf timeout st ag _ h with ⟨k, bs, hk⟩ | ⟨_, ⟨ev, hev, _⟩ | ⟨ready, st1, ag1, fired, hf, hg1, hsp, hto, hrd, heq⟩⟩
+    · simp at hk
+    · simp at hev
+    · rw [heq] at h ⊢
+      obtain ⟨hclk, _, ho⟩ := afterWait_facts P gk val ready st1 ag1
+      rw [hclk]
+      rcases ho _ h with ⟨t', e', h1, _⟩ | ⟨_, h1⟩ | ⟨k, bs, h1⟩ | ⟨ks, h1⟩
+      · simp at h1
+      · cases ready with
+        | false => exact hto rfl
+        | true =>
+          rcases h1 with h1 | h1
+          · simp at h1
+          · have hos : st1.osbuf = [] := take_length_zero _ _ hr (by simpa [nonblockingRead] using h1)
+            rcases hrd rfl with h2 | h2
+            · exact absurd hos h2
+            · rw [hsp hz hq] at h2; simp at h2
+      · simp at h1
+      · simp at h1
+
+theorem waitLoop_ready (P : Params) (timeout : Option Time) (t0 : Time) (f : Nat) (remaining : Option Time)
+    (st : InSt β) (ag : Agenda β) (h : st.osbuf ≠ []) :
+    waitLoop (κ := κ) P timeout t0 (f + 1) remaining st ag = (.ok (true, none), st, ag) := by
+  have hfr : firstReady P st = some .stdin := by
+    unfold firstReady
+    have : st.osbuf.isEmpty = false := by cases hh : st.osbuf <;> simp_all
+    simp [this]
+  have hsel : ∀ dl, select P dl st ag = (.stdin, st, ag) := by
+    intro dl; unfold select; rw [hfr]
+  unfold waitLoop
+  rw [hsel]
+
+theorem pasteLoop_not_blocked (P : Params) (gk : List Nat → Bool → Except PyErr (Option κ)) (val : β → Nat) :
+    ∀ (f : Nat) (acc : List (κ × List β)) (st : InSt β), (pasteLoop P gk val f acc st).1 ≠ .error .blockedForever := by
+  intro f
+  induction f with
+  | zero => intro acc st; simp [pasteLoop]
+  | succ f ih =>
+    intro acc st
+    unfold pasteLoop
+    simp only []
+    split
+    · simp
+    · simp
+    · exact ih _ _
+
+theorem sendRead_not_blocked (P : Params) (gk : List Nat → Bool → Except PyErr (Option κ)) (val : β → Nat)
+    (st : InSt β) (ag : Agenda β) : (sendRead P gk val st ag).1 ≠ .error .blockedForever := by
+  unfold sendRead
+  simp only []
+  split
+  · simp
+  · split
+    · exact pasteLoop_not_blocked P gk val _ _ _
+    · split <;> simp
+
+theorem afterWait_not_blocked (P : Params) (gk : List Nat → Bool → Except PyErr (Option κ)) (val : β → Nat)
+    (ready : Bool) (st : InSt β) (ag : Agenda β) : (afterWait P gk val ready st ag).1 ≠ .error .blockedForever := by
+  unfold afterWait
+  split
+  · simp only []
+    split
+    · simp
+    · split
+      · simp
+      · exact sendRead_not_blocked P gk val _ _
+  · split
+    · simp
+    · exact sendRead_not_blocked P gk val _ _
+
+/-- `sendRest` with bytes already buffered or waiting in the OS buffer: no waiting -/
+theorem sendRest_prompt (P : Params) (gk : List Nat → Bool → Except PyErr (Option κ)) (val : β → Nat) (wf : Nat)
+    (tuc : Option Time) (st : InSt β) (ag : Agenda β) (hr : P.readSize > 0)
+    (h : st.unprocessed ≠ [] ∨ st.osbuf ≠ []) :
+    (sendRest P gk val (wf + 1) tuc st ag).1 ≠ .ok none ∧
+    (sendRest P gk val (wf + 1) tuc st ag).1 ≠ .error .blockedForever ∧
+    (sendRest P gk val (wf + 1) tuc st ag).2.2 = ag ∧
+    (sendRest P gk val (wf + 1) tuc st ag).2.1.clock = st.clock := by
+  unfold sendRest
+  have hn := findKey_none gk val st.unprocessed []
+  have hsp := findKey_split gk val st.unprocessed []
+  generalize findKey gk val st.unprocessed [] = r at hn hsp
+  obtain ⟨res, used, rest⟩ := r
+  cases res with
+  | error e => exact ⟨by simp, by simp, rfl, rfl⟩
+  | ok ko =>
+    cases ko with
+    | some k => exact ⟨by simp, by simp, rfl, rfl⟩
+    | none =>
+      have hu := (hn rfl).1
+      have ho : st.osbuf ≠ [] := by
+        rcases h with h | h
+        · exact absurd hu h
+        · exact h
+      simp only [List.nil_append] at hsp
+      have hrest : rest = [] := by rw [hu] at hsp; exact (List.append_eq_nil_iff.mp hsp).2
+      subst hrest
+      have est : ({ st with unprocessed := [] } : InSt β) = st := by cases st; simp_all
+      simp only []
+      rw [est, waitLoop_ready (κ := κ) P tuc st.clock wf tuc st ag ho]
+      simp only []
+      obtain ⟨hclk, hag, hout⟩ := afterWait_facts P gk val true st ag
+      refine ⟨?_, afterWait_not_blocked P gk val true st ag, hag, hclk⟩
+      intro hnone
+      rcases hout _ hnone with ⟨t', e', h1, _⟩ | ⟨_, h1⟩ | ⟨k, bs, h1⟩ | ⟨ks, h1⟩
+      · simp at h1
+      · rcases h1 with h1 | h1
+        · simp at h1
+        · exact ho (take_length_zero _ _ hr (by simpa [nonblockingRead] using h1))
+      · simp at h1
+      · simp at h1
+
+/-- PROMPT: a request started while something is deliverable - a SIGINT event, a queued or interrupting event, a
+    scheduled event whose time has passed, bytes already buffered, or bytes waiting in the OS buffer - does not return
+    `None`, does not block, consumes no agenda item (no waiting select) and takes no time. (wait fuel >= 1) -/
+theorem C08_prompt (P : Params) (gk : List Nat → Bool → Except PyErr (Option κ)) (val : β → Nat) (wf : Nat)
+    (st : InSt β) (ag : Agenda β) (timeout : Option Time) (hr : P.readSize > 0)
+    (h : st.sigints > 0 ∨ st.queued ≠ [] ∨ st.interrupting ≠ [] ∨ (∃ x ∈ st.scheduled, x.1 < st.clock) ∨
+      st.unprocessed ≠ [] ∨ st.osbuf ≠ []) :
+    (send P gk val (wf + 1) st ag timeout).1 ≠ .ok none ∧
+    (send P gk val (wf + 1) st ag timeout).1 ≠ .error .blockedForever ∧
+    (send P gk val (wf + 1) st ag timeout).2.2 = ag ∧
+    (send P gk val (wf + 1) st ag timeout).2.1.clock = st.clock := by
+  by_cases hbusy : st.sigints > 0 ∨ st.queued ≠ [] ∨ st.interrupting ≠ []
+  · obtain ⟨⟨ev, h1⟩, h2, h3⟩ := C08_prompt_events P gk val (wf + 1) st ag timeout hbusy
+    exact ⟨by rw [h1]; simp, by rw [h1]; simp, h2, h3⟩
+  · have hg : ¬ st.sigints > 0 := fun x => hbusy (Or.inl x)
+    have hq0 : st.queued = [] := Classical.byContradiction fun x => hbusy (Or.inr (Or.inl x))
+    have hi : st.interrupting = [] := Classical.byContradiction fun x => hbusy (Or.inr (Or.inr x))
+    have h' : (∃ x ∈ st.scheduled, x.1 < st.clock) ∨ st.unprocessed ≠ [] ∨ st.osbuf ≠ [] := by
+      rcases h with h | h | h | h
+      · exact absurd h hg
+      · exact absurd hq0 h
+      · exact absurd hi h
+      · exact h
+    rw [send_idle P gk val (wf + 1) st ag timeout hg hq0 hi]
+    have hsorted := sortSched_sorted st.scheduled
+    have hperm := sortSched_perm st.scheduled
+    generalize sortSched st.scheduled = so at hsorted hperm
+    cases so with
+    | nil =>
+      simp only []
+      rcases h' with ⟨x, hx, _⟩ | h'
+      · have := hperm.mem_iff.mpr hx; simp at this
+      · exact sendRest_prompt P gk val wf timeout st ag hr h'
+    | cons hd srest =>
+      obtain ⟨w, e⟩ := hd
+      simp only []
+      by_cases hdue : w < st.clock
+      · simp only [hdue, if_true]
+        exact ⟨by simp, by simp, by first | rfl | trivial, by first | rfl | trivial⟩
+      · simp only [hdue, if_false]
+        rcases h' with ⟨x, hx, hxt⟩ | h'
+        · exfalso
+          have hm := hperm.mem_iff.mpr hx
+          rcases List.mem_cons.mp hm with hm | hm
+          · subst hm; exact hdue hxt
+          · exact hdue (Nat.lt_of_le_of_lt (hsorted.1 x hm) hxt)
+        · exact sendRest_prompt P gk val wf _ { st with scheduled := (w, e) :: srest } ag hr h'
+
+
+/-! ## many requests: the ledger of a whole history -/
+def isUnget : EnvAct β → Bool | .unget _ => true | _ => false
+
+abbrev Log (κ β : Type) := List (Except Fail (Option (Out κ β)))
+def logQ (log : Log κ β) : List Ev := log.flatMap fun r => outQ (resOut r)
+def logI (log : Log κ β) : List Ev := log.flatMap fun r => outI (resOut r)
+def logS (log : Log κ β) : List (Time × Ev) := log.flatMap fun r => outS (resOut r)
+def logG (log : Log κ β) : Nat := (log.map fun r => outG (resOut r)).sum
+def logB (log : Log κ β) : List β := log.flatMap fun r => outB (resOut r)
+
+/-- ledger of a history: returned (over all requests, in order) ++ still held = held at the start ++ everything the
+    fired agenda items brought in; bytes under the hypotheses that no request raised and that no `unget_bytes` fired
+    (an unget between two requests is inserted behind the bytes already read, i.e. in the middle of `pend`) -/
+structure Hist (P : Params) (st : InSt β) (fired : Agenda β) (log : Log κ β) (st' : InSt β) : Prop where
+  q : logQ log ++ st'.queued = st.queued ++ envQ fired
+  i : logI log ++ st'.interrupting = st.interrupting ++ envI fired
+  s : (logS log ++ st'.scheduled).Perm (st.scheduled ++ envS fired)
+  g : logG log + st'.sigints = st.sigints + envG P fired
+  b : (∀ x ∈ fired, isUnget x.2 = false) → (∀ r ∈ log, ∃ o, r = .ok o) →
+        logB log ++ pend st' = pend st ++ envB fired
+  c : st.clock ≤ st'.clock
+
+theorem Hist.nil (P : Params) (st : InSt β) : Hist (κ := κ) P st [] [] st :=
+  ⟨by simp [logQ, envQ], by simp [logI, envI], by simp [logS, envS], by simp [logG, envG],
+   fun _ _ => by simp [logB, envB], Nat.le_refl _⟩
+
+theorem applyEnv_hist (P : Params) (a : EnvAct β) (st : InSt β) (t : Time) :
+    Hist (κ := κ) P st [(t, a)] [] (applyEnv P a st) := by
+  refine ⟨?_, ?_, ?_, ?_, ?_, ?_⟩
+  · cases a <;> simp [applyEnv, logQ, envQ, qOf] <;> split <;> rfl
+  · cases a <;> simp [applyEnv, logI, envI, iOf] <;> split <;> rfl
+  · cases a <;> simp [applyEnv, logS, envS, sOf] <;> split <;> rfl
+  · cases a <;> simp [applyEnv, logG, envG, gOf] <;> split <;> simp_all
+  · intro hu _
+    have hu' := hu (t, a) (by simp)
+    cases a <;> simp [applyEnv, logB, envB, bOf, pend, isUnget] at hu' ⊢ <;> split <;> rfl
+  · cases a <;> simp [applyEnv] <;> split <;> simp
+
+theorem Hist.envThen {P : Params} {a b c : InSt β} {f1 f2 : Agenda β} {log : Log κ β}
+    (h1 : Hist (κ := κ) P a f1 [] b) (h2 : Hist P b f2 log c) : Hist P a (f1 ++ f2) log c := by
+  have q1 := h1.q; have i1 := h1.i; have s1 := h1.s; have g1 := h1.g
+  simp [logQ, logI, logS, logG] at q1 i1 s1 g1
+  refine ⟨?_, ?_, ?_, ?_, ?_, Nat.le_trans h1.c h2.c⟩
+  · rw [h2.q, q1]; simp [envQ]
+  · rw [h2.i, i1]; simp [envI]
+  · refine h2.s.trans ?_
+    have : (b.scheduled ++ envS f2).Perm ((a.scheduled ++ envS f1) ++ envS f2) := List.Perm.append_right _ s1
+    simpa [envS] using this
+  · rw [h2.g, g1]; simp [envG]; omega
+  · intro hu hok
+    have b1 := h1.b (fun x hx => hu x (List.mem_append_left _ hx)) (by simp)
+    simp [logB] at b1
+    rw [h2.b (fun x hx => hu x (List.mem_append_right _ hx)) hok, b1]; simp [envB]
+
+theorem fireDue_hist (P : Params) (st : InSt β) (ag : Agenda β) :
+    ∃ fired, ag = fired ++ (fireDue P st ag).2 ∧ Hist (κ := κ) P st fired [] (fireDue P st ag).1 := by
+  induction ag generalizing st with
+  | nil => exact ⟨[], rfl, Hist.nil P st⟩
+  | cons x rest ih =>
+    obtain ⟨t, a⟩ := x
+    unfold fireDue
+    split
+    · obtain ⟨f, hf, hh⟩ := ih (applyEnv P a st)
+      exact ⟨(t, a) :: f, by simp [← hf], (applyEnv_hist P a st t).envThen hh⟩
+    · exact ⟨[], rfl, Hist.nil P st⟩
+
+theorem Hist.reqThen {P : Params} {a b c : InSt β} {f1 f2 : Agenda β} {res : Except Fail (Option (Out κ β))}
+    {lost : List β} {log : Log κ β}
+    (h1 : Took P a f1 (resOut res) lost b) (hl : ∀ o, res = .ok o → lost = []) (h2 : Hist P b f2 log c) :
+    Hist P a (f1 ++ f2) (res :: log) c := by
+  refine ⟨?_, ?_, ?_, ?_, ?_, Nat.le_trans h1.c h2.c⟩
+  · have := h1.q; simp only [logQ, List.flatMap_cons] at h2 ⊢
+    rw [List.append_assoc, (by simpa [logQ] using h2.q : (log.flatMap fun r => outQ (resOut r)) ++ c.queued = _),
+      ← List.append_assoc, this]; simp [envQ]
+  · have := h1.i; simp only [logI, List.flatMap_cons] at h2 ⊢
+    rw [List.append_assoc, (by simpa [logI] using h2.i : (log.flatMap fun r => outI (resOut r)) ++ c.interrupting = _),
+      ← List.append_assoc, this]; simp [envI]
+  · have e2 : ((log.flatMap fun r => outS (resOut r)) ++ c.scheduled).Perm (b.scheduled ++ envS f2) := by
+      simpa [logS] using h2.s
+    simp only [logS, List.flatMap_cons]
+    rw [List.append_assoc]
+    refine (List.Perm.append_left _ e2).trans ?_
+    rw [← List.append_assoc]
+    refine (List.Perm.append_right _ h1.s).trans ?_
+    simp [envS]
+  · have g1 := h1.g; have g2 := h2.g
+    have e : envG P (f1 ++ f2) = envG P f1 + envG P f2 := by simp [envG]
+    simp only [logG, List.map_cons, List.sum_cons] at g2 ⊢
+    rw [e]; omega
+  · intro hu hok
+    obtain ⟨o, ho⟩ := hok res (by simp)
+    have hlost := hl o ho
+    subst hlost
+    have b1 := h1.b; simp at b1
+    have b2 := h2.b (fun x hx => hu x (List.mem_append_right _ hx)) (fun r hr => hok r (List.mem_cons_of_mem _ hr))
+    simp only [logB, List.flatMap_cons] at b2 ⊢
+    rw [List.append_assoc, b2, ← List.append_assoc, b1]; simp [envB]
+
+/-- EXACTLY ONCE over a whole history (any script of requests and clock advances, any agenda): per trigger source the
+    events returned over all requests, in order, followed by the events still queued are exactly the events triggered,
+    in trigger order; scheduled events as a multiset; SIGINT events as a count; bytes (keypresses and pastes of all
+    requests, in order, then what is still buffered) are exactly the bytes that arrived, in arrival order - the byte
+    clause for histories in which no request raised (D15/D12) and no `unget_bytes` fired. -/
+theorem C08_exactly_once_history (P : Params) (gk : List Nat → Bool → Except PyErr (Option κ)) (val : β → Nat)
+    (ops : List MainOp) :
+    ∀ (st : InSt β) (ag : Agenda β),
+      ∃ fired, ag = fired ++ (run P gk val ops st ag).2.2 ∧
+        Hist P st fired (run P gk val ops st ag).1 (run P gk val ops st ag).2.1 := by
+  induction ops with
+  | nil => intro st ag; exact ⟨[], rfl, Hist.nil P st⟩
+  | cons op ops ih =>
+    intro st ag
+    cases op with
+    | advance dt =>
+      simp only [run, advance]
+      obtain ⟨f1, h1, hh1⟩ := fireDue_hist (κ := κ) P { st with clock := st.clock + dt } ag
+      generalize fireDue P { st with clock := st.clock + dt } ag = fd at h1 hh1
+      obtain ⟨st1, ag1⟩ := fd
+      simp only [] at h1 hh1 ⊢
+      obtain ⟨f2, h2, hh2⟩ := ih st1 ag1
+      refine ⟨f1 ++ f2, by rw [h1, List.append_assoc, ← h2], ?_⟩
+      have hh1' : Hist (κ := κ) P st f1 [] st1 :=
+        ⟨hh1.q, hh1.i, hh1.s, hh1.g, hh1.b, Nat.le_trans (Nat.le_add_right _ _) hh1.c⟩
+      exact hh1'.envThen hh2
+    | request t =>
+      simp only [run]
+      obtain ⟨f1, lost, h1, ht, hl⟩ := C08_exactly_once P gk val (waitFuelFor st ag) st ag t
+      generalize send P gk val (waitFuelFor st ag) st ag t = sr at h1 ht hl
+      obtain ⟨res, st1, ag1⟩ := sr
+      simp only [] at h1 ht hl
+      split
+      · rename_i heq
+        simp only [Prod.mk.injEq] at heq
+        obtain ⟨rfl, rfl, rfl⟩ := heq
+        have := Hist.reqThen ht hl (Hist.nil (κ := κ) P st1)
+        exact ⟨f1, h1, by simpa using this⟩
+      · rename_i heq
+        simp only [Prod.mk.injEq] at heq
+        obtain ⟨rfl, rfl, rfl⟩ := heq
+        obtain ⟨f2, h2, hh2⟩ := ih st1 ag1
+        exact ⟨f1 ++ f2, by rw [h1, List.append_assoc, ← h2], Hist.reqThen ht hl hh2⟩
+
+/-- "The wait-loop fuel always suffices": with `waitFuelFor st ag` rounds the wait loop never answers `outOfFuel`.
+    NOT PROVED (each round consumes a wake-up byte or >= 1 pipe byte and `select` turns one agenda item into at most
+    PIPE_WRITE such bytes, so `wake + sum pipes + (PIPE_WRITE+1) * |agenda|` decreases; the measure argument is not
+    formalised).  The simulation tie would show an `F` token on the model side if it ever happened: none in any run. -/
+def C08_wait_fuel_statement : Prop :=
+  ∀ (β κ : Type) (P : Params) (timeout : Option Time) (t0 : Time) (remaining : Option Time) (st : InSt β) (ag : Agenda β),
+    (waitLoop (κ := κ) P timeout t0 (waitFuelFor st ag) remaining st ag).1 ≠ .error .outOfFuel
 
 end Curtsies
